@@ -1183,7 +1183,7 @@ def _pairs(ctx, reqs, pending, spec_reqs, spec_pending, only_idx=None):
 MALFORMED = ['bogus-graphic', 'no-graphic', 'no-sop', 'no-sop-source', 'no-children', 'reverse-regions', 'legacy-names',
              'swap-groups', 'versioned-names', 'versioned-values', 'snm3-names']
 METAMORPHIC = ('reverse-regions', 'legacy-names', 'swap-groups', 'versioned-names')     # no malformation: the answers must not change
-RULE = ('versioned-values', 'snm3-names')      # the answers change as the library's documented code matching rule says
+RULE_PERTURBATIONS = ('versioned-values', 'snm3-names')      # the answers change as the library's documented code matching rule says
 ROI_SHAPES = [s_ for s_ in SHAPES if s_[0] != 'image' and s_[1] != 'regions2d-1']
 
 
@@ -1265,7 +1265,7 @@ def _malformed(ctx, reqs3, pending3, only_idx=None):
             sc_ = _call(lambda: len(rp.get_subject_contexts()))
             return (oc_[1] if oc_[0] == 'ok' else ('err', oc_[1]), sc_[1] if sc_[0] == 'ok' else ('err', sc_[1]))
         ctx_before = contexts_of(rep) if what in METAMORPHIC else None
-        if what in METAMORPHIC or what in RULE:
+        if what in METAMORPHIC or what in RULE_PERTURBATIONS:
             # the answers of the untouched report (this also lets the report remember whatever it remembers between queries)
             for method in ('planar', 'volumetric', 'image'):
                 for f in filters_of(method):
@@ -1324,7 +1324,7 @@ def _malformed(ctx, reqs3, pending3, only_idx=None):
                                                  'versioned-names': 'the answer changed when every concept name stated the version of its '
                                                                     'coding scheme (the same concepts)'}[what],
                                         'before': before[fkey(method, f)], 'after': now}, site=f'{method}/metamorphic-{what}')
-                if what in RULE:
+                if what in RULE_PERTURBATIONS:
                     # the library's documented matching rule, evaluated on the construction parameters: coded VALUES are equal iff
                     # (value, scheme, version) are (SRT normalised to SCT); a concept NAME spelled with SNM3 is not the SCT name
                     was = before[fkey(method, f)]
